@@ -356,11 +356,34 @@ def clause_validate_then_apply(prog, rep):
                 # own commit: the extension it installs was built locally from the typed struct (update_group_data), not decoded from a peer
                 bad = [x for x in bad if not _decodes_group_data(prog, x)]
             ents = "MDK::process_message"
+            # beyond decoders: no *data-dependent refusal* after the state change — an explicit `Err(..)` in a function called after the
+            # merge whose condition depends on the decoded group data rejects the event when it is too late to leave the group untouched
+            late = []
+            for x in f.live_calls():
+                if x.bb not in after or x is c:
+                    continue
+                for t in prog.call_targets(x):
+                    if t.crate != "mdk_core":
+                        continue
+                    for q in sorted(prog.extent(t)):
+                        g = prog.fns.get(q)
+                        if not g or g.crate != "mdk_core" or g.is_test_like():
+                            continue
+                        explicit = set(bb2 for bb2, s2 in g.stmts() if s2.get("k") == "agg" and s2["d"] == [0] and last_seg(s2.get("adt")) == "Result" and s2.get("variant") == "Err")
+                        for eb in sorted(explicit):
+                            for w in A.control_dependent_switches(g, eb):
+                                og = A.origins(prog, g, A._opl(g.term(w)["discr"]), scope=None, max_frames=1)
+                                if og.has_call(lambda y: y.name in ("from_group", "from_group_context") and last_seg(y.self_adt) == "NostrGroupDataExtension"):
+                                    late.append((x, g))
+            for x, g in late[:3]:
+                rep.violation("validate-then-apply", "%s/MlsGroup::%s/late-refusal/%s" % (ents, c.name, g.name),
+                              "after MlsGroup::%s, %s can still refuse the event on a condition computed from the decoded group data: the event is "
+                              "reported as failed although the MLS epoch already advanced" % (c.name, g.label()), g.loc())
             for x in bad:
                 rep.violation("validate-then-apply", "%s/MlsGroup::%s/%s" % (ents, c.name, x.name),
                               "after MlsGroup::%s the call to %s still decodes peer-supplied data and can fail: the event is then reported as "
                               "failed although the MLS epoch already advanced (a refused event has an effect)" % (c.name, x.name), x.loc())
-            if not bad:
+            if not bad and not late:
                 rep.ok("validate-then-apply", "%s/MlsGroup::%s" % (ents, c.name), "no fallible input decoder follows the state change on the Ok spine", c.loc())
     rep.floor("validate-then-apply", "state-advancing MLS calls on the receive path", n, 3)
 
